@@ -1993,4 +1993,124 @@ theorem refToIdx_follows (A : Aff) (shape : Ax → Int) (roundOut check : Bool) 
       | ok b => cases b <;> rfl
 
 
+/-! ## the cast of the transformer's results (dtype of the index array) -/
+
+
+theorem wrapInt_id (lo hi v : Int) (h1 : lo ≤ v) (h2 : v ≤ hi) : wrapInt lo hi v = v := by
+  unfold wrapInt
+  rw [Int.emod_eq_of_lt (by omega) (by omega)]
+  omega
+
+theorem minL_le (xs : List Rat) (m : Rat) : minL xs m ≤ m ∧ ∀ x ∈ xs, minL xs m ≤ x := by
+  have h := (minL_lt_iff xs m (minL xs m)).not.mp (lt_irrefl _)
+  rw [not_or] at h
+  exact ⟨not_lt.mp h.1, fun x hx => not_lt.mp (fun hlt => h.2 ⟨x, hx, hlt⟩)⟩
+
+theorem le_maxL (xs : List Rat) (m : Rat) : m ≤ maxL xs m ∧ ∀ x ∈ xs, x ≤ maxL xs m := by
+  have h := (lt_maxL_iff xs m (maxL xs m)).not.mp (lt_irrefl _)
+  rw [not_or] at h
+  exact ⟨not_lt.mp h.1, fun x hx => not_lt.mp (fun hlt => h.2 ⟨x, hx, hlt⟩)⟩
+
+theorem minAll_le (out : List V3) (q : V3) (hq : q ∈ out) : minAll out ≤ q.x ∧ minAll out ≤ q.y ∧ minAll out ≤ q.z := by
+  cases out with
+  | nil => cases hq
+  | cons p ps =>
+    obtain ⟨h0, h⟩ := minL_le ((p :: ps).map (·.y) ++ (p :: ps).map (·.z) ++ ps.map (·.x)) p.x
+    simp only [minAll]
+    refine ⟨?_, ?_, ?_⟩
+    · rcases List.mem_cons.mp hq with rfl | hq'
+      · exact h0
+      · exact h _ (by simp only [List.mem_append, List.mem_map]; exact Or.inr ⟨q, hq', rfl⟩)
+    · exact h _ (by simp only [List.mem_append, List.mem_map]; exact Or.inl (Or.inl ⟨q, hq, rfl⟩))
+    · exact h _ (by simp only [List.mem_append, List.mem_map]; exact Or.inl (Or.inr ⟨q, hq, rfl⟩))
+
+theorem le_maxAll (out : List V3) (q : V3) (hq : q ∈ out) : q.x ≤ maxAll out ∧ q.y ≤ maxAll out ∧ q.z ≤ maxAll out := by
+  cases out with
+  | nil => cases hq
+  | cons p ps =>
+    obtain ⟨h0, h⟩ := le_maxL ((p :: ps).map (·.y) ++ (p :: ps).map (·.z) ++ ps.map (·.x)) p.x
+    simp only [maxAll]
+    refine ⟨?_, ?_, ?_⟩
+    · rcases List.mem_cons.mp hq with rfl | hq'
+      · exact h0
+      · exact h _ (by simp only [List.mem_append, List.mem_map]; exact Or.inr ⟨q, hq', rfl⟩)
+    · exact h _ (by simp only [List.mem_append, List.mem_map]; exact Or.inl (Or.inl ⟨q, hq, rfl⟩))
+    · exact h _ (by simp only [List.mem_append, List.mem_map]; exact Or.inl (Or.inr ⟨q, hq, rfl⟩))
+
+/-- every rounded result is an index that int64 can hold (|index| < 2^63) -/
+def FitsInt64 (ys : List V3) : Prop :=
+  ∀ y ∈ ys, (int64Lo ≤ roundHalfEven y.x ∧ roundHalfEven y.x ≤ int64Hi) ∧
+    (int64Lo ≤ roundHalfEven y.y ∧ roundHalfEven y.y ≤ int64Hi) ∧ (int64Lo ≤ roundHalfEven y.z ∧ roundHalfEven y.z ≤ int64Hi)
+
+theorem castIntV_roundV (lo hi : Int) (y : V3)
+    (h : (lo ≤ roundHalfEven y.x ∧ roundHalfEven y.x ≤ hi) ∧ (lo ≤ roundHalfEven y.y ∧ roundHalfEven y.y ≤ hi) ∧
+      (lo ≤ roundHalfEven y.z ∧ roundHalfEven y.z ≤ hi)) : castIntV lo hi (roundV y) = roundV y := by
+  unfold castIntV roundV
+  simp only [Rat.floor_intCast]
+  rw [wrapInt_id _ _ _ h.1.1 h.1.2, wrapInt_id _ _ _ h.2.1.1 h.2.1.2, wrapInt_id _ _ _ h.2.2.1 h.2.2.2]
+
+theorem keepInput_spec (isInt : Bool) (size : Int) (mn mx : Rat) (lo hi : Int) :
+    ∃ k, v2vKeepInputType isInt size mn mx lo hi = .ok k ∧
+      (k = true → size = 0 ∨ ((lo : Rat) ≤ mn ∧ mx ≤ (hi : Rat))) := by
+  unfold v2vKeepInputType
+  refine ⟨_, rfl, ?_⟩
+  cases isInt <;> simp only [Bool.false_eq_true, if_false, if_true]
+  · intro h; cases h
+  · intro h
+    split at h
+    · rename_i h2
+      simp only [Bool.or_eq_true, Bool.and_eq_true, beq_iff_eq, decide_eq_true_eq, ge_iff_le] at h2
+      exact h2
+    · cases h
+
+/-- **no wrap-around**: rounded results that int64 can hold come back unchanged, whatever the dtype of
+the index array (however narrow, signed or unsigned) -/
+theorem v2vCast_round (dt : PtDtype) (ys : List V3) (hfit : FitsInt64 ys) :
+    v2vCast dt true (ys.map roundV) = .ok (ys.map roundV) := by
+  unfold v2vCast v2vInputIsInt
+  simp only [if_true, bindE]
+  obtain ⟨k, hk, hspec⟩ := keepInput_spec (dt.kind == "i" || dt.kind == "u") (3 * ((ys.map roundV).length : Int))
+    (minAll (ys.map roundV)) (maxAll (ys.map roundV)) dt.lo dt.hi
+  rw [hk]
+  simp only []
+  congr 1
+  cases k with
+  | true =>
+    simp only [if_true]
+    rw [List.map_map]
+    apply List.map_congr_left
+    intro y hy
+    simp only [Function.comp]
+    apply castIntV_roundV
+    have hmem : roundV y ∈ ys.map roundV := List.mem_map.mpr ⟨y, hy, rfl⟩
+    obtain ⟨a1, a2, a3⟩ := minAll_le _ _ hmem
+    obtain ⟨b1, b2, b3⟩ := le_maxAll _ _ hmem
+    have hne : ¬ (3 * ((ys.map roundV).length : Int) = 0) := by
+      cases ys with
+      | nil => cases hy
+      | cons _ _ => simp only [List.map_cons, List.length_cons]; omega
+    rcases hspec rfl with h0 | ⟨hlo, hhi⟩
+    · exact absurd h0 hne
+    · simp only [roundV] at a1 a2 a3 b1 b2 b3
+      refine ⟨⟨?_, ?_⟩, ⟨?_, ?_⟩, ⟨?_, ?_⟩⟩
+      · exact_mod_cast le_trans hlo a1
+      · exact_mod_cast le_trans b1 hhi
+      · exact_mod_cast le_trans hlo a2
+      · exact_mod_cast le_trans b2 hhi
+      · exact_mod_cast le_trans hlo a3
+      · exact_mod_cast le_trans b3 hhi
+  | false =>
+    simp only [Bool.false_eq_true, if_false]
+    rw [List.map_map]
+    apply List.map_congr_left
+    intro y hy
+    simp only [Function.comp]
+    exact castIntV_roundV _ _ _ (hfit y hy)
+
+theorem v2vCast_unrounded (dt : PtDtype) (out : List V3) :
+    v2vCast dt false out = .ok (if dt.kind == "f" then out.map (narrowV dt.narrow) else out) := by
+  unfold v2vCast v2vCastBack
+  simp only [Bool.false_eq_true, if_false, bindE]
+
+
 end HdVerif.Match
